@@ -313,6 +313,8 @@ fn replay(v: &Value) -> Option<String> {
         }
         "delay" => delay_case(&list("lens"), us("n_in"), us("n_out"), us("wrapper")).map(|e| format!("{}: {}", e.0, e.1)),
         "signal" => signal_case(us("n_out"), us("wrapper")).map(|e| format!("{}: {}", e.0, e.1)),
+        "delay_soak" => delay_case_calls(&list("lens"), 2, 2, 0, if us("calls") == 0 { 300 } else { us("calls") }).map(|e| format!("{}: {}", e.0, e.1)),
+        "signal_soak" => signal_case_calls(2, 0, 300).map(|e| format!("{}: {}", e.0, e.1)),
         _ => Some("unknown case".into()),
     }
 }
@@ -323,7 +325,7 @@ fn main() {
         let _guard_scope = guard::scoped(&v.to_string());
         ctx.finish_replay(catch(|| replay(&v)).unwrap_or_else(|p| Some(format!("panic: {p}"))));
     }
-    ctx.rule("Sum / SumBuffers: input count 0..=3 x buffers per input 0..=3 (every combination) x output buffers 0..=3 x 10 wrapper types (plain, BoxedNode, BoxedNodeSend, Box<Box<T>>, &mut T, fn pointer, Box<dyn Fn>, Box<dyn FnMut>, nested GraphNode, nested GraphNode whose inner input/output nodes have different buffer counts) x 3 consecutive calls; Pass: 0 or 1 input likewise; Delay: per-channel ring lengths over {1,2,63,64,65,130}^(1..=2 channels) x input buffers 0..=3 x output buffers 0..=3 x 4 wrappers x 4 calls with coded initial ring contents; signal node: Box<dyn Signal<Frame=[f32;2]>> over an instrumented source, output buffers 0..=3, 3 calls, 64 pulls per call; sources write position-coded dyadic values (sums exact in f32), outputs start as a sentinel; oracle = per-node reference function; scale probes: Sum / SumBuffers with 4..=8, 16, 33, 100, 255, 256 and 257 inputs (patterned buffer counts), plain and nested-graph wrappers; soak probes: 300 consecutive calls of delay nodes (4 ring-length sets) and of the signal node; distinct by configuration");
+    ctx.rule("Sum / SumBuffers: input count 0..=3 x buffers per input 0..=3 (every combination) x output buffers 0..=3 x 10 wrapper types (plain, BoxedNode, BoxedNodeSend, Box<Box<T>>, &mut T, fn pointer, Box<dyn Fn>, Box<dyn FnMut>, nested GraphNode, nested GraphNode whose inner input/output nodes have different buffer counts) x 3 consecutive calls; Pass: 0 or 1 input likewise; Delay: per-channel ring lengths over {1,2,63,64,65,130}^(1..=2 channels) x input buffers 0..=3 x output buffers 0..=3 x 4 wrappers x 4 calls with coded initial ring contents; signal node: Box<dyn Signal<Frame=[f32;2]>> over an instrumented source, output buffers 0..=3, 3 calls, 64 pulls per call; sources write position-coded dyadic values (sums exact in f32), outputs start as a sentinel; oracle = per-node reference function; scale probes: Sum / SumBuffers with 4..=8, 16, 33, 100, 255, 256 and 257 inputs (patterned buffer counts), plain and nested-graph wrappers; soak probes: 300 consecutive calls of delay nodes (4 ring-length sets) and of the signal node, 2100 calls of delay nodes with rings of 65535 and 65536 / 65537 samples (the write position wraps twice); distinct by configuration");
     let mut evals = 0u64;
     for kind in [Kind::Sum, Kind::SumBuffers, Kind::Pass] {
         for n_in in 0..=(if kind == Kind::Pass { 1 } else { 3 }) {
@@ -407,6 +409,17 @@ fn main() {
         evals += 1;
         if let Some((k, m)) = delay_case_calls(&lens, 2, 2, 0, 300) {
             ctx.violation(&k, case, format!("300 consecutive calls: {m}"), None);
+        }
+    }
+    // 16-bit boundary: rings of 2^16 +- 1 samples, enough calls for the write position to wrap twice
+    for lens in [vec![65535usize], vec![65536, 65537]] {
+        let case = json!({"sys":"delay_soak","lens":lens,"calls":2100});
+        let _guard_scope = guard::scoped(&case.to_string());
+        evals += 1;
+        match catch(|| delay_case_calls(&lens, 2, 2, 0, 2100)) {
+            Ok(None) => {}
+            Ok(Some((k, m))) => ctx.violation(&k, case, format!("2100 consecutive calls: {m}"), None),
+            Err(p) => ctx.violation("node.panic", case, format!("delay rings {lens:?}, 2100 consecutive calls: panicked: {p}"), None),
         }
     }
     if let Some((k, m)) = signal_case_calls(2, 0, 300) {
